@@ -408,6 +408,10 @@ def run(ck, repo: Repo, tier: str):
             is_trained_target = any(has_base(w, t_id) or has_base(t_id, w) for _, w, k in trained)
             is_trained_online = any(has_base(w, o_id) or has_base(o_id, w) for _, w, k in trained) or any(x[3] == o_id for x in targets)
             okk = not is_trained_target or _is_source_too(t_id, targets)
+            if okk and not (is_trained_online or q.endswith("train_td7")):
+                # no write to the first argument is visible in this routine: that is absence of evidence (the training call may not be
+                # attributable), not evidence of swapped arguments
+                raise AnalysisError(f"{q}: cannot confirm that `{short(oe, 30)}` (copied to `{short(te, 30)}`) is the trained object: no attributable training write")
             ck.ob("R3-writers", q, f"order:{short(oe, 30)}->{short(te, 30)}", okk and (is_trained_online or q.endswith("train_td7")), f"{short(oe, 30)}->{short(te, 30)}: online={show(o_id)} target={show(t_id)}",
                   "" if (okk and (is_trained_online or q.endswith('train_td7'))) else "arguments look swapped: the first argument is not the trained (online) object or the second one is trained", loc(mi, hc))
         # R5 chained copies
